@@ -21,10 +21,13 @@ class C29(C28):
     def gen(self, rng, tier, n):
         fl = [f for f in self.flows() if not hydro.FLOWS[f].get("unordered")]
         keyed = [f for f in fl if hydro.FLOWS[f]["kind"] == "keyed"]
-        return (hydro.corpus_cases("C29") + hydro.emit_cases(self.flows()) + hydro.gen_unordered_cases(rng, tier, "t_join_half_unord")
+        return (hydro.corpus_cases("C29") + hydro.emit_cases(self.flows()) + hydro.gen_net_cases(rng, tier, "C29")
+                + hydro.gen_unordered_cases(rng, tier, "t_join_half_unord")
                 + hydro.gen_interleave_cases(rng, tier, keyed) + hydro.gen_partition_cases(rng, tier, fl))
 
     def to_coq(self, case, res):
+        if hydro.FLOWS[case["flow"]].get("net"):
+            return hydro.net_term(self.translate(), case, res)
         if hydro.FLOWS[case["flow"]].get("unordered"):
             tr = self.translate()
             flow = case["flow"]
